@@ -143,6 +143,7 @@ func (r *ComDoc) readSAT() error {
 	limit := int64(count) * int64(r.Header.SATSectors)
 	var sat []SecID
 	chunk := make([]SecID, count)
+	seen := make(map[SecID]bool)
 	for _, sector := range r.MSAT {
 		if sector < 0 {
 			continue
@@ -150,6 +151,10 @@ func (r *ComDoc) readSAT() error {
 		if int64(len(sat)) >= limit {
 			return errors.New("msat has more sectors than indicated")
 		}
+		if seen[sector] {
+			return errors.New("msat lists a sector twice")
+		}
+		seen[sector] = true
 		if err := r.readSectorStruct(sector, chunk); err != nil {
 			return err
 		}
